@@ -53,6 +53,9 @@ struct Plan {
     /// pass-through mode only: read through Connection::receive_message_from_read_half (the node's path)
     #[serde(default)]
     read_half: bool,
+    /// read with Connection::receive_raw: every frame body comes back verbatim, in order
+    #[serde(default)]
+    raw: bool,
     #[serde(default)]
     salt: u64,
 }
@@ -105,7 +108,7 @@ impl Scenario for C06 {
                 gap_ms: *r.pick(&[0u32, 0, 0, 1, 30]),
             });
         }
-        let p = Plan { header_mode, client: end(r), server: end(r), cap: *r.pick(&[0u32, 0, 4096]), items, interleave: r.chance(1, 2), read_half: !header_mode && r.chance(1, 3), salt: r.next_u64() };
+        let p = Plan { header_mode, client: end(r), server: end(r), cap: *r.pick(&[0u32, 0, 4096]), items, interleave: r.chance(1, 2), read_half: !header_mode && r.chance(1, 3), raw: r.chance(1, 10), salt: r.next_u64() };
         serde_json::to_value(p).unwrap()
     }
 
@@ -130,7 +133,7 @@ impl Scenario for C06 {
             components_stubbed: &["TCP (SimNet)", "EPMD (stub)", "remote node (conforming sender model with an independent encoder)"],
             assumptions: &["junk frames never touch atom-cache slots the sender model uses (reserved segment 7) and use sequence ids disjoint from valid fragments", "fragmented messages use header entries in reserved segment 6 so that the known fragment defect cannot cascade into later messages"],
             fault_prefixes: &["fault.", "net."],
-            expected_probes: &["probe.c06.ok_passthrough", "probe.c06.ok_header", "probe.c06.tick_skipped", "probe.c06.junk_rejected", "probe.c06.message_after_junk_intact", "probe.c06.fragmented_sent", "probe.c06.read_half_api"],
+            expected_probes: &["probe.c06.ok_passthrough", "probe.c06.ok_header", "probe.c06.tick_skipped", "probe.c06.junk_rejected", "probe.c06.message_after_junk_intact", "probe.c06.fragmented_sent", "probe.c06.read_half_api", "probe.c06.raw_api"],
         }
     }
 }
@@ -351,9 +354,10 @@ pub async fn receive_all(conn: &mut Connection, n: usize) -> Vec<Got> {
 
 async fn scenario(w: &Arc<World>, p: &Plan) {
     let script: Arc<Mutex<Option<Vec<Expect>>>> = Arc::new(Mutex::new(None));
+    let raw_frames: Arc<Mutex<Vec<Vec<u8>>>> = Arc::new(Mutex::new(Vec::new()));
     let peer_flags = OTP_FLAGS_BASE | if p.header_mode { FLAG_DIST_HDR_ATOM_CACHE | FLAG_FRAGMENTS } else { 0 };
     {
-        let (p2, script2) = (p.clone(), script.clone());
+        let (p2, script2, raw2) = (p.clone(), script.clone(), raw_frames.clone());
         install_conforming_peer(
             w,
             NetCfg { client: p.client.clone(), server: p.server.clone(), cap: p.cap as usize },
@@ -361,6 +365,7 @@ async fn scenario(w: &Arc<World>, p: &Plan) {
             move |w, conn, _seen| {
                 let mut cache = SenderCache::default();
                 let (frames, expect) = build_script(&w, p2.header_mode, p2.interleave, &p2.items, &mut cache, 1000);
+                *raw2.lock().unwrap() = frames.iter().map(|(f, _)| f[4..].to_vec()).collect();
                 *script2.lock().unwrap() = Some(expect);
                 Box::pin(send_script(conn, frames))
             },
@@ -374,6 +379,27 @@ async fn scenario(w: &Arc<World>, p: &Plan) {
         }
         tokio::time::sleep(Duration::from_millis(1)).await;
     };
+    if p.raw {
+        w.stat("probe.c06.raw_api");
+        let want = raw_frames.lock().unwrap().clone();
+        for (i, body) in want.iter().enumerate() {
+            match conn.receive_raw().await {
+                Ok(b) if &b == body => {}
+                Ok(b) => {
+                    w.violation("raw-frame-mismatch", format!("receive_raw call {}: {} bytes returned, frame {} has {} bytes", i, b.len(), i, body.len()));
+                    return;
+                }
+                Err(e) => {
+                    w.violation("raw-frame-mismatch", format!("receive_raw call {} failed: {}", i, e));
+                    return;
+                }
+            }
+        }
+        if conn.receive_raw().await.is_ok() {
+            w.violation("extra-message", "receive_raw returned a frame after the peer closed".to_string());
+        }
+        return;
+    }
     let results = if p.read_half && !p.header_mode {
         w.stat("probe.c06.read_half_api");
         let Some(mut half) = conn.take_read_half() else {
